@@ -13,6 +13,8 @@ Next == /\ l <= Len(Trace)
            /\ Report("NoPanic", e.panics = 0)
            /\ Report("Answered", e.answered /\ ~e.dropped)
            /\ Report("Recovers", e.newOK)
+           \* the correct messages that lead to the scenario's state are accepted (a correct handshake succeeds)
+           /\ Report("Recovers", e.prefixOK)
            /\ Report("Recovers", (~e.closedAfter /\ e.answered) => (e.sameOK /\ e.rejectedStarts <= 1))
         /\ l' = l + 1
 Accepted == TLCGet("stats").diameter = Len(Trace) + 1
